@@ -3,7 +3,7 @@ package go9p
 // C16 — Ufs names and metadata mirror the exported tree.
 //
 // H16.walk (vxH16Walk): one Twalk (srv.walk + Ufs.Walk + walkPost) over a model tree of depth 3 whose entries
-// exist symbolically; 0..nmax elements, each chosen from {"a","b","..","c d","é"}; newfid = fid or a fresh one;
+// exist symbolically; 0..nmax elements, each chosen from {"a","b","..","c d","é","..."}; newfid = fid or a fresh one;
 // the fid starts at the root or one level down. The reference resolves the names over the harness's own table of
 // the tree (not through the model FS) and demands, from the statement:
 //   * Rerror iff there is at least one element and the first does not exist; otherwise Rwalk with exactly one
@@ -75,7 +75,7 @@ func (t *vxRefTree) add(fs *vxFS, parent []string, name string, kind int, symExi
 	return elems
 }
 
-var vxWalkNames = []string{"a", "b", "..", "c d", "\xc3\xa9"}
+var vxWalkNames = []string{"a", "b", "..", "c d", "\xc3\xa9", "..."} // "..." is an ordinary name (it exists nowhere in the tree)
 
 func vxQidAgrees(q Qid, n *vxRefNode) bool {
 	return vxAll(q.Path == n.d.in.ino, (q.Type&QTDIR != 0) == (n.kind == vxKDir), (q.Type&QTSYMLINK != 0) == (n.kind == vxKLink))
@@ -296,7 +296,16 @@ func vxH16Stat(dotu bool, namelen int) {
 	in.mtime = int64(vxU32("mtime"))
 	in.ino = vxU64("ino")
 	in.uid = uint32(vxChoose("uid", 2))
-	k.addFid(1, vxRoot+"/"+name, vxKindType(kind))
+	_, uf := k.addFid(1, vxRoot+"/"+name, vxKindType(kind))
+	if vxChoose("cached", 2) == 1 {
+		// arbitrary valid pre-state: the fid may carry the result of an earlier lstat, of this object as it was
+		// then or (after an in-place walk) of another object; a stat must report the object as it is now
+		stale := k.fs.newInode(vxKFile, 0600)
+		stale.size = int64(vxU32("stale.size"))
+		stale.mtime = int64(vxU32("stale.mtime"))
+		stale.ino = vxU64("stale.ino")
+		uf.st = vxInfoOf("old", stale)
+	}
 	before := k.fs.snapshot()
 
 	rc := k.run(&Fcall{Type: Tstat, Fid: 1}, 512)
